@@ -292,23 +292,27 @@ impl Encoder for GossipsubCodec {
 }
 
 /// Validate RPC limits by parsing the wire format without allocating.
+///
+/// There is nothing to validate (`Ok`) as long as `buf` does not hold a complete frame.
 fn validate_rpc_limits(
     mut buf: &[u8],
     max_message_size: usize,
     max_publish_messages: usize,
     max_control_message_size: usize,
-) -> io::Result<bool> {
+) -> io::Result<()> {
+    // Consume length prefix and get message bytes from length-prefixed buffer for validation
+    if !consume_message_prefix(&mut buf)? {
+        return Ok(());
+    }
+
+    // `buf` now holds exactly one frame. The size limit applies to that frame, not to whatever
+    // else has already been read from the socket (length prefix, following frames).
     let message_length = buf.len();
     if message_length > max_message_size {
         return Err(io::Error::new(
             io::ErrorKind::InvalidData,
             format!("message with {message_length}b exceeds maximum of {max_message_size}b",),
         ));
-    }
-
-    // Consume length prefix and get message bytes from length-prefixed buffer for validation
-    if !consume_message_prefix(&mut buf)? {
-        return Ok(false);
     }
 
     let mut publish_count = 0;
@@ -343,7 +347,7 @@ fn validate_rpc_limits(
             _ => {}
         }
     }
-    Ok(true)
+    Ok(())
 }
 
 impl Decoder for GossipsubCodec {
@@ -351,17 +355,16 @@ impl Decoder for GossipsubCodec {
     type Error = prost_codec::Error;
 
     fn decode(&mut self, src: &mut BytesMut) -> Result<Option<Self::Item>, Self::Error> {
-        // Pre-validate: discard if limits exceeded
-        if !validate_rpc_limits(
+        // Pre-validate a complete frame: discard if limits exceeded
+        validate_rpc_limits(
             src.as_ref(),
             self.global_max_transmit_size,
             self.max_publish_messages,
             self.max_control_message_size,
-        )? {
-            return Ok(None);
-        };
+        )?;
 
-        // Safe to decode with prost
+        // Safe to decode with prost. While the frame is incomplete this yields `None`, unless the
+        // announced length already exceeds the maximum, which is an error right away.
         let Some(mut rpc) = self.codec.decode(src)? else {
             return Ok(None);
         };
